@@ -35,6 +35,9 @@ def jobs(tier):
         dict(name='fixed-table-k3', harness=H, entry='main_c06',
              defines=dict(NN=4, NE=4, NS=1, FIXED_TABLE=1, OPTS_LO=1, KOPS=3),
              timeout=600, require_tags={'end': 1, 'null': 1, 'nonnull': 1}),
+        dict(name='nested-samples-k2', harness=H, entry='main_c06',
+             defines=dict(NN=3, NE=2, NS=0, TP_LO=6, TP_HI=6, SP_LO=5, SP_HI=5, OPTS_LO=1, KOPS=2, FIRST_OP_MOVES=1),
+             timeout=600, require_tags={'end': 1, 'null': 1, 'nonnull': 1}),
         dict(name='kernel-search-sorted', harness='k_kernels.c', entry='main_kernel', defines=dict(KERNEL=6, NA=5), timeout=600,
              require_tags={'end': 1, 'exact': 1, 'past-end': 1}),
     ]
@@ -59,7 +62,7 @@ def jobs(tier):
 
 
 BOUNDS = {
-    'quick': 'Python wrappers: 1-6 trees, index in [-20,20], any binary64 position; search kernel: tsk_search_sorted (the position -> tree index step of seek from the null state) on strictly increasing arrays of 1-5 free binary64 values and a free probe; all 28 non-redundant sequences of 2 operations from {first,last,next,prev,seek(x),seek_index(i),clear} followed by copy, x '
+    'quick': 'the 2-operation histories also on 3-node classes in which every node is a sample at distinct times (nested internal samples, tracked sample below them); Python wrappers: 1-6 trees, index in [-20,20], any binary64 position; search kernel: tsk_search_sorted (the position -> tree index step of seek from the null state) on strictly increasing arrays of 1-5 free binary64 values and a free probe; all 28 non-redundant sequences of 2 operations from {first,last,next,prev,seek(x),seek_index(i),clear} followed by copy, x '
              'a solver variable in [0,L), on every valid 3-node 2-edge tree sequence class with one site (edge '
              'coordinates symbolic), and all 343 sequences of 3 operations on one fixed 4-node 4-edge 5-tree sequence '
              '(internal sample, gap, empty last tree, site position and seek positions symbolic); sample lists on, all three nodes samples (so the oldest is an internal sample), one tracked sample; compared field by field with a fresh tree '
